@@ -10,7 +10,7 @@ CONSTANTS
   Lease = 1
   MaxRec = 0
   Bug = {}
-  GenMode = "C07"
+  GenMode = "C07walk"
   GenDepth = 7
   LifeDepth = 0
   Canon = TRUE
